@@ -186,9 +186,10 @@ example : ∀ lane : List Nat, ∃ y, cumsumBody (Arr.flat lane) = .ok y ∧ y.e
   fun _ => ⟨_, rfl, by simp [Arr.flat]⟩
 example : ∀ (lane : List Nat) kd, ∃ y, countBody (Arr.flat lane) kd = .ok y ∧ y.elems.length = 1 := by
   intro lane kd
+  refine ⟨Arr.single ((Arr.flat lane).elems.filter (· != 0)).length, ?_, rfl⟩
   by_cases h : kd = some true
-  · exact ⟨_, by simp [countBody, keepdimsTail, h, Arr.flat, Arr.ndim, Arr.atleast, Arr.atleast1d], rfl⟩
-  · exact ⟨_, by simp [countBody, keepdimsTail, h], rfl⟩
+  · simp [countBody, keepdimsTail, h, Arr.flat, Arr.ndim, Arr.atleast, Arr.atleast1d]
+  · simp [countBody, keepdimsTail, h]
 -- so the theorems apply to the sample:
 example := reduce_spec sample 0 0 1 sumBody (by decide) (by decide) (by decide) (fun _ _ => ⟨_, rfl, rfl⟩)
 example := scan_spec sample 0 0 (-3) cumsumBody (by decide) (by decide) (by decide) (fun _ _ => ⟨_, rfl, by simp [Arr.flat]⟩)
